@@ -149,6 +149,7 @@ def o18_2(tier):
             for cid in cycles:
                 pres[cid] = ctx.real(f"P{round_}_{cid}")
                 ctx.set(m.c[cid], "pressure", pres[cid])
+                ctx.set(m.c[cid], "gt_pressure", ctx.real(f"GTP_{cid}"))       # a reference pressure is present and must not leak into the table
             df = ctx.call(ctx.get(st, "get_big_edges_df"), fr)
             ctx.ensure([int(x) for x in column(ctx, df, "ids")] == [b for b, _ in bes], f"call {round_}: one row per interface in dictionary order")
             ctx.ensure(ctx.And(*[ctx.close(a, tens[b]) for a, (b, _) in zip(column(ctx, df, "stress"), bes)]), f"call {round_}: the CURRENT tension of every interface")
